@@ -326,3 +326,9 @@ func TestVerifC18Markup(t *testing.T) {
 		"rapid: 26 canary payloads + generated metacharacter mixes x request-controlled field x 13 HTML-producing route situations (failed / successful login, 401 login and 2FA pages for authorize / CLI-token routes, landing page, own / other profile with stored token names, users list, CLI token page, error paths); non-trivial = response is HTML and reflects the canary; distinct = (route, field, payload)",
 		c18Gen, c18Check)
 }
+
+// FuzzVerifC18Markup: coverage-guided search (go test -fuzz) over the entropy
+// stream of the generator of TestVerifC18Markup, with the same oracle.
+func FuzzVerifC18Markup(f *testing.F) {
+	vRunFuzz(f, "native coverage-guided fuzzing of the entropy stream of the TestVerifC18Markup generator (rapid.MakeFuzz); same case structure, oracle, non-trivial rule and distinctness rule as TestVerifC18Markup", c18Gen, c18Check)
+}
